@@ -476,7 +476,7 @@ static std::vector<std::pair<size_t, size_t> > stack_shapes(size_t n, const std:
 	S.push_back(std::make_pair((size_t)1, (size_t)1));
 	S.push_back(std::make_pair((size_t)2, (size_t)8));
 	S.push_back(std::make_pair((size_t)3, (size_t)3));
-	if (n <= 8 || n == 64 || n >= TMCG_MAX_CARDS - 1)
+	if (n <= 8 || n == 64 || n == TMCG_MAX_CARDS)
 		S.push_back(std::make_pair((size_t)TMCG_MAX_PLAYERS, (size_t)TMCG_MAX_TYPEBITS));
 	S.push_back(std::make_pair((size_t)0, (size_t)0)); // mixed: card i has shape (i mod 32 + 1, i mod 10 + 1)
 	return S;
@@ -780,11 +780,14 @@ static void fam_keys()
 {
 	std::vector<KeyStrings> KS = key_strings();
 	const std::vector<Named> &A = F->Along;
+	// --keygrid small (ASan quick pass): every 4th modulus value and Blum primes < 40 only; the plain run has the full grid
+	bool small = AR->get("keygrid", "full") == "small";
 	// ---- public keys: every string variant x (m, y) over the alphabet diagonal bands
 	for (size_t s = 0; s < KS.size(); s++)
 		for (size_t i = 0; i < A.size(); i++)
 		{
 			std::string cid = "keys:pub,s=" + str(s) + ",m=" + str(i);
+			if (small && (i % 4) != 0) continue;
 			if (!R->mine() || !R->selected(cid)) continue;
 			if (R->out_of_time()) return;
 			if (i == 0) at(cid);
@@ -803,7 +806,7 @@ static void fam_keys()
 		}
 	// ---- secret keys built from small and seeded Blum primes (import recomputes the non-persistent members)
 	std::vector<Z> primes;
-	for (unsigned long c = 3; c < 120; c += 4) if (is_prime_ul(c)) primes.push_back(Z((long)c));
+	for (unsigned long c = 3; c < (small ? 40UL : 120UL); c += 4) if (is_prime_ul(c)) primes.push_back(Z((long)c));
 	{
 		mcenv::CoinSource cs(mcenv::env_seed(), 4711);
 		mcenv::cur = &cs;
@@ -925,7 +928,12 @@ int main(int argc, char **argv)
 		if (enc == "" || enc == "qr") fam_stacksecret_of<TMCG_CardSecret>("qr", shapes);
 		rep.bound = "sizes 1..64, 511, 512; all permutations for n<=5; QR shapes: " + shapes;
 	}
-	else if (family == "keys") { fam_keys(); rep.bound = "6 string variants x alphabet moduli; all pairs of Blum primes < 120 and 5 seeded primes; generated keys"; }
+	else if (family == "keys")
+	{
+		fam_keys();
+		rep.bound = A.get("keygrid", "full") == "small" ? "reduced key grid (every 4th modulus value, Blum primes < 40 and 5 seeded primes; generated keys) - second pass, the plain run has the full grid"
+			: "6 string variants x alphabet moduli; all pairs of Blum primes < 120 and 5 seeded primes; generated keys";
+	}
 	else { fprintf(stderr, "unknown family %s\n", family.c_str()); return 2; }
 	if (lite) // a second pass under ASan over grid points that the plain run of the same family covers completely: not a cap
 		rep.bound += "; lite pass: exports above 50000 characters are skipped (covered by the plain runs)";
